@@ -532,9 +532,10 @@ func (w *qWorld) onMessage(co *consumer, f Frame) {
 		}
 	}
 	d.maybeAnswered = ghost
-	if !cm.VoidAt.IsZero() && p.SendSeq < cm.VoidSeq {
+	if !cm.VoidAt.IsZero() && (p.SendSeq < cm.VoidSeq || p.SendStep <= cm.VoidStep) {
 		// the frame may have been written to the output buffer before the
 		// channel was emptied: the message may or may not still be in flight
+		// (published before the empty was sent, or while it was still unanswered)
 		if sl, bounded := co.slack(); !bounded || !f.At.After(cm.VoidAt.Add(sl)) {
 			d.maybeAnswered = true
 		}
@@ -1544,6 +1545,14 @@ func (w *qWorld) checkLate() {
 		var mine []*delivery
 		for _, d := range co.Dels {
 			if d.Answer == "" && !d.Voided && !d.maybeAnswered && lastDel(d.mc) == d {
+				if d.Step == cm.VoidStep && cm.VoidSeq != 0 {
+					// handed out in the very epoch in which the channel was emptied: if before the empty, it is
+					// gone from the in-flight set and rightly never times out (same rule as the RDY check)
+					continue
+				}
+				if sl, ok := co.slack(); ok && !cm.VoidAt.IsZero() && !d.At.After(cm.VoidAt.Add(sl)) && d.Step > cm.VoidStep {
+					continue
+				}
 				mine = append(mine, d)
 			}
 		}
@@ -1573,6 +1582,54 @@ func (w *qWorld) checkLate() {
 			}
 		}
 		w.rc.Probe("late_checked")
+	}
+}
+
+// checkStuckInFlight (C04, "boundedly late", seen from the daemon's own counters): whatever a channel
+// holds in flight was handed out within the last max-msg-timeout (plus scan slack) - an entry of the
+// in-flight set that has lost its place in the timeout queue stays there for ever, and with it the
+// message. Only channels whose frames are all accounted for are judged: every consumer unbuffered (a
+// frame waiting in an output buffer is in flight and not yet seen) and no connection ended recently (a
+// frame written to a connection that then broke is in flight and was never seen).
+func (w *qWorld) checkStuckInFlight() {
+	now := time.Now()
+	window := ms(w.cfg.MaxMsgTimeoutMs) + w.lateSlack()
+	if w.n == nil || now.Sub(w.lastRestartAt) <= window {
+		return
+	}
+	doc, _ := w.getStats("")
+	if doc == nil {
+		return
+	}
+	for _, k := range w.sortedChanKeys() {
+		cm := w.chans[k]
+		if cm == nil || !cm.Exists || cm.Uncertain || now.Sub(cm.lastConnEnd) <= window {
+			continue
+		}
+		judged := true
+		for _, co := range w.cons {
+			if co.ck == k && co.Subscribed && !co.Dead && !co.Unbuffered {
+				judged = false
+			}
+		}
+		sc := doc.channel(cm.Topic, cm.Name)
+		if !judged || sc == nil {
+			continue
+		}
+		recent := int64(0)
+		for _, mc := range cm.msgs {
+			for _, d := range mc.dels {
+				if d.At.After(now.Add(-window)) {
+					recent++
+				}
+			}
+		}
+		if sc.InFlightCount > recent {
+			w.violate("C04", "in-flight-never-expires", "channel %s holds %d messages in flight, but handed out only %d within the last %v (max-msg-timeout %v + scan slack): an in-flight message is not being timed out",
+				k, sc.InFlightCount, recent, window, ms(w.cfg.MaxMsgTimeoutMs))
+			return
+		}
+		w.rc.Probe("in_flight_age_checked")
 	}
 }
 
